@@ -25,7 +25,7 @@ func c14Alphabet() *term.Alphabet {
 	return &term.Alphabet{
 		Leaves: map[term.Ty][]*term.Term{
 			B:  {term.Var("b", B), term.Const(true)},
-			S:  {term.Var("s", S), term.Const("a  b"), term.Const("a(b"), term.Const(";x"), term.Const("[,]\n ")},
+			S:  {term.Var("s", S), term.Const("a  b"), term.Const("a(b"), term.Const(";x"), term.Const("[,]\n "), term.Const("c\r\nd\r")},
 			SL: {term.Const([]string{"p  q", ")"}), term.Const([]string{})},
 		},
 		Ops: []term.OpSig{
@@ -247,6 +247,9 @@ func c14(r *rep.Run) {
 					for o := -1; o < g; o++ {
 						if o == k {
 							continue
+						}
+						if o >= 0 && o != k+1 && o != k-1 && !r.Thorough() {
+							continue // quick: the other non-default gap is a neighbour
 						}
 						for oi := 0; oi < 3; oi++ {
 							for x := range ss {
